@@ -218,6 +218,7 @@ type c09ctx struct {
 	paramLenIn  map[*ssa.Parameter]int64
 	paramNN     map[*ssa.Parameter]bool
 	paramNNIn   map[*ssa.Parameter]bool
+	curIns      ssa.Instruction
 	optimistic  bool // first collecting round: recursive call sites are skipped (their facts are checked in the next rounds under the assumption)
 }
 
@@ -343,6 +344,12 @@ func minLen(st *pstate, x *Sym, depth int) int64 {
 			}
 		}
 	}
+	if x.K == sSlice && x.Str == ":" && x.T != nil {
+		// arr[:] of a fixed-size array (the variadic arguments of an append)
+		if n, ok := staticLen(x.T, x); ok && n > m {
+			m = n
+		}
+	}
 	if x.K == sSlice {
 		// x[lo:] : len = len(x) - lo
 		parts := strings.SplitN(x.Str, ":", 2)
@@ -405,7 +412,9 @@ func (c *c09ctx) analyseFunc(fn *ssa.Function) {
 				return
 			}
 			bs, is := symOf(base), symOf(idx)
+			c.curIns = ins
 			ok, why := c.indexOK(st, bs, is)
+			c.curIns = nil
 			c.record(ins, "index", f.Name()+":index:"+shortDesc(base), ok, why, st)
 		case *ssa.Slice:
 			bs := symOf(x.X)
@@ -689,6 +698,13 @@ func (c *c09ctx) indexOK(st *pstate, base, idx *Sym) (bool, string) {
 	}
 	if sortLessIndex(base, idx) {
 		return true, ""
+	}
+	// a slice holding one element per entry of a map (keycoll.go): idx < m.Len() is idx < len(slice) once the collecting loop
+	// has ended
+	if kc, m := collectedKeys(st, base); kc != nil && c.curIns != nil && !loopBlocks(kc.header)[c.curIns.Block()] && lowerBoundNonNeg(st, idx) {
+		if v, ok := evalBool(st, &Sym{K: sCmp, Op: token.LSS, A: idx, B: &Sym{K: sRLen, A: m}}); ok && v {
+			return true, ""
+		}
 	}
 	// a widened descending induction variable starting at len(base)-c (c ≥ 1) and known ≥ 0
 	if bs, off := linearSym(idx); bs != nil && bs.K == sOpaque && bs.Str == "havoc-desc" && bs.A != nil && off <= 0 {
